@@ -76,6 +76,11 @@ CONFIGS = {
     "E2": dict(n_wfs=2, masks=[[[1, 1], [1, 0]], [[1, 1], [1, 1]]], D=1.0, sd=[0.5, 0.5],
                gsalt=[90000., 0], gspos=[[12., -7.], [0., 25.]], wl=[589e-9, 700e-9],
                layers=[(1500. * k, 0.2 + 0.03 * k, 10. + 5. * (k % 3)) for k in range(10)], forms="ndarray"),
+    # a low (Rayleigh) laser guide star with a layer above its altitude (negative cone factor), unequal
+    # sub-aperture sizes in every pair
+    "F2": dict(n_wfs=2, masks=[[[1, 1], [1, 1]], [[1, 1, 0], [1, 1, 1], [0, 1, 1]]], D=1.2, sd=[0.6, 0.4],
+               gsalt=[13500., 0], gspos=[[10., 4.], [-6., 0.]], wl=[532e-9, 700e-9],
+               layers=[(0., 0.2, 25.), (9000., 0.4, 30.), (16000., 0.5, 50.)]),
 }
 THREADS = [1, 2, 3, 4]
 
@@ -90,9 +95,9 @@ def BOUNDS(tier):
 def _plan(tier):
     """(config, depth, deviation bound or None=all)"""
     if tier == "quick":
-        return [("A2", 2, None), ("B3", 1, None), ("B3", 2, 2), ("C2", 2, 2), ("D3", 1, 2), ("E2", 2, 1)]
+        return [("A2", 2, None), ("B3", 1, None), ("B3", 2, 2), ("C2", 2, 2), ("D3", 1, 2), ("E2", 2, 1), ("F2", 2, 1)]
     return [("A2", 3, 3), ("A2", 2, None), ("B3", 1, None), ("B3", 2, 3), ("C2", 2, None), ("C2", 3, 2),
-            ("D3", 1, 4), ("D3", 2, 2), ("B3", 3, 2), ("E2", 2, 2), ("E2", 3, 1)]
+            ("D3", 1, 4), ("D3", 2, 2), ("B3", 3, 2), ("E2", 2, 2), ("E2", 3, 1), ("F2", 2, None), ("F2", 3, 1)]
 
 
 def _tlc_pairs(tier):
